@@ -21,6 +21,7 @@ special-case them), `ProbeOK` (same for the looked-up address), and, inside `Ite
 range does not end at ::ffff:0.0.0.0".  Each excluded region has a counterexample theorem below.  No size bounds anywhere.
 -/
 import SquidModel.Acl.IpCorollaries
+import SquidModel.Acl.IpFuel
 
 namespace SquidModel.C42
 open SquidModel.Acl SquidModel.Acl.Ip
@@ -91,6 +92,11 @@ theorem keyword_ipv6 (toks : List Token) (acl : Acl) (ev : List Event) (h : pars
   have hk := matchAll_keeps earlier acl []
   exact matchAddr_ipv6 (by rw [hk.2.1]; exact hf) hx
 
+/-- The loop budget the model gives `Merge` (`size + 1` rounds) is never exhausted, for *every* token list — regular or not,
+tame or not: `parse` ends normally, by `self_destruct()`, or in the dangling removal; the outcome `fuel` is a pure model artefact. -/
+theorem parse_never_exhausts_budget (toks : List Token) : parse toks ≠ .fuel :=
+  parseFrom_no_fuel toks _ _
+
 /-- Lookups splay the tree but never change the switches nor the left-to-right sequence of stored values (no hypotheses). -/
 theorem lookups_keep_stored (acl : Acl) (probes : List Nat) :
     (matchAll acl probes []).1.any4 = acl.any4 ∧ (matchAll acl probes []).1.any6 = acl.any6 ∧
@@ -111,6 +117,22 @@ theorem anyaddr_order_counterexample  :
    (verdicts [.item ⟨.v6, 1, none, .none⟩, .item ⟨.v4, 0, none, .none⟩] [1, V4ANY] = some [false, true] ∧
     verdicts [.item ⟨.v4, 0, none, .none⟩, .item ⟨.v6, 1, none, .none⟩] [1, V4ANY] = some [true, true] ∧
     unionB [.item ⟨.v6, 1, none, .none⟩, .item ⟨.v4, 0, none, .none⟩] 1 = true) := by
+  first | (intro h; exact absurd h (by decide)) | (intro _; decide)
+
+/-- squid's built-in `acl to_localhost dst 127.0.0.0/8 0.0.0.0/32 ::1/128 ::/128` (src/cf.data.pre), in the order it is shipped -/
+def toLocalhost : List Token :=
+  [.item ⟨.v4, 0x7f000000, none, .cidr 8⟩, .item ⟨.v4, 0, none, .cidr 32⟩, .item ⟨.v6, 1, none, .cidr 128⟩, .item ⟨.v6, 0, none, .cidr 128⟩]
+
+/-- in the shipped order the built-in list works (127.0.0.1, 0.0.0.0, ::1, :: match, 10.0.0.1 does not) although it is not `Tame` … -/
+example : verdicts toLocalhost [V4ANY + 0x7f000001, V4ANY, 1, 0, V4ANY + 0x0a000001] = some [true, true, true, true, false] := by decide
+
+/-- … but the same four values with `::1/128` written first do not match `::1` (12 of the 24 orders lose `::1` or `0.0.0.0`;
+`http_access deny to_localhost` then lets such requests through). -/
+theorem to_localhost_order_counterexample :
+    Gen.IpAcl.plainOrder = false →
+   (verdicts [.item ⟨.v6, 1, none, .cidr 128⟩, .item ⟨.v4, 0x7f000000, none, .cidr 8⟩, .item ⟨.v4, 0, none, .cidr 32⟩, .item ⟨.v6, 0, none, .cidr 128⟩]
+      [V4ANY + 0x7f000001, V4ANY, 1, 0, V4ANY + 0x0a000001] = some [true, true, false, true, false] ∧
+    unionB toLocalhost 1 = true) := by
   first | (intro h; exact absurd h (by decide)) | (intro _; decide)
 
 /-- `acl x src ::1-::5` matches the client address `0.0.0.0`.  (`ProbeOK` fails.) -/
